@@ -49,8 +49,30 @@ Definition key_text (k : key) : bytes :=
 
 Definition low_unless (cs : bool) (s : bytes) : bytes := if cs then s else lower_ascii s.
 
+(* rule.go lowerRegexSource: the literal text of a regex key is lower-cased, escape sequences are copied
+   as written (\X, \pL, \p{Name}, \P{Name}, \x{10FFFF}); a trailing backslash is literal text.
+   mode 0 = text, 1 = just after a backslash, 2 = inside {...} up to the closing brace, 3 = one-letter class *)
+Fixpoint lower_rx_go (mode : nat) (s : bytes) : bytes :=
+  match s with
+  | [] => []
+  | c :: r =>
+    match mode with
+    | O => if (c =? 92) && negb (match r with [] => true | _ => false end)
+           then c :: lower_rx_go (S O) r else ascii_lower c :: lower_rx_go O r
+    | S O =>
+      let isp := (c =? 112) || (c =? 80) in
+      let brace := match r with n :: _ => n =? 123 | [] => false end in
+      if (isp || (c =? 120)) && brace then c :: lower_rx_go (S (S O)) r
+      else if isp && negb (match r with [] => true | _ => false end) then c :: lower_rx_go (S (S (S O))) r
+      else c :: lower_rx_go O r
+    | S (S O) => c :: lower_rx_go (if c =? 125 then O else S (S O)) r
+    | _ => c :: lower_rx_go O r
+    end
+  end.
+Definition lower_rx (p : bytes) : bytes := lower_rx_go O p.
+
 Definition key_rx (cs : bool) (k : key) : option bytes :=
-  match k with KRx p => Some (low_unless cs p) | _ => None end.
+  match k with KRx p => Some (if cs then p else lower_rx p) | _ => None end.
 
 (* Rule.AddVariable / newRuleVariableParams *)
 Definition add_var (cnt : bool) (v : var) (k : key) (vars : list cvar) : list cvar :=
